@@ -895,7 +895,7 @@ func urlGuardedByLanguage(p *Program, g *urlGuard, b *ssa.BasicBlock, urlVal ssa
 		return false, "guards are not conditions on the URL alone"
 	}
 	s2 := NewSummarizer(p, g.Regexes)
-	gf := s2.FuncForm(g.Fn, termEnv{g.Fn.Params[0]: Term{Param: 0}})
+	gf := g.GuardForm(s2, 0)
 	if u, why := gf.HasUnknown(); u || len(s2.Inexact) > 0 {
 		return false, "URL guard not summarisable exactly: " + why
 	}
